@@ -235,7 +235,7 @@ PROPS = {
                       'in order: none invented, none reordered), C11_ping_makes_pong_pending, C13_pong_never_dropped.',
     },
     'C12': {
-        'modules': ['C12', 'C12Global', 'TieWrite', 'TieRead', 'TieRun', 'TieFrame', 'TieConfig'],
+        'modules': ['C12', 'C12Global', 'TieWrite', 'TieRead', 'TieRun', 'TieFrame', 'TieConfig', 'C20Gen'],
         'families': [('ep:slotrace', 1, 1), ('corpus:defects', 0, 0), ('ep:close', 2000, 60000), ('ep:backpressure', 1500, 40000), ('pure:closecode', 1, 1), ('ep:cfglive', 400, 8000)],
         'rule': 'close frames with every class of status code (all 65536 through the conversion functions), reasons empty..123 bytes, '
                 'arriving in every connection state, with and without a pending pong',
@@ -310,6 +310,7 @@ PROPS = {
                       'Little-endian target assumed (from_ne_bytes / rotate_right).',
     },
     'C20': {
+        'modules': ['C20', 'C20Gen', 'TieFrame'],
         'families': [('pure:closecode', 1, 1), ('pure:opcode', 1, 1)],
         'exhaustive': True,
         'rule': 'complete enumeration of all 65536 status codes (and all 256 opcode bytes) through the public '
